@@ -26,6 +26,15 @@ def run(repo, rep, tier):
     fi = repo.func(Q)
     D, F = repo.attrs.DIRNAME, repo.attrs.FREQNAME
     dset, freq, dirp, mm0 = fi.params[:4]
+    from ..astutil import factors, resolve
+    rets = [n for n in ast.walk(fi.node) if isinstance(n, ast.Return) and n.value is not None]
+    if len(rets) != 1 or not isinstance(rets[0].value, ast.Name):
+        raise AnalysisError("regrid_spec: single `return <name>` expected")
+    OUT = rets[0].value.id
+    # a returned temporary (return split) is followed back to the working object
+    last = [a for a in ast.walk(fi.node) if isinstance(a, ast.Assign) and isinstance(a.targets[0], ast.Name) and a.targets[0].id == OUT]
+    if len(last) == 1 and isinstance(last[0].value, ast.Name):
+        OUT = last[0].value.id
     # ---- R-C08-1 --------------------------------------------------------------------------------------
     pads = []
     for n in ast.walk(fi.node):
@@ -74,17 +83,18 @@ def run(repo, rep, tier):
     # ---- R-C08-4 order of normalisation steps ---------------------------------------------------------
     seq = []
     for s in ast.walk(fi.node):
-        if isinstance(s, ast.Assign) and isinstance(s.targets[0], ast.Name) and s.targets[0].id == "dsout":
+        if isinstance(s, ast.Assign) and isinstance(s.targets[0], ast.Name) and s.targets[0].id == OUT:
             t = unparse(s.value)
+            v = s.value
             if "% 360" in t and "assign_coords" in t:
                 seq.append(("mod", s.lineno))
             elif "unique_indices" in t:
                 seq.append(("unique", s.lineno))
             elif ".sortby(" in t:
                 seq.append(("sort", s.lineno))
-            elif "xr.concat(to_concat" in t:
+            elif isinstance(v, ast.Call) and call_name(v) in ("xr.concat", "xarray.concat") and kwarg(v, "dim") is not None and repo.const(fi.module, kwarg(v, "dim")) == D:
                 seq.append(("concat", s.lineno))
-            elif ".interp(dir=" in t or f".interp({D}=" in t:
+            elif isinstance(v, ast.Call) and isinstance(v.func, ast.Attribute) and v.func.attr == "interp" and any(k.arg == D for k in v.keywords):
                 seq.append(("interp_dir", s.lineno))
     names = [a for a, _ in sorted(seq, key=lambda x: x[1])]
     if names == ["mod", "unique", "sort", "concat", "interp_dir"] and all(p.lineno > dict(seq)["sort"] for p in pads):
@@ -109,14 +119,24 @@ def run(repo, rep, tier):
     else:
         rep.fail("R-C08-2", fi.file, interps[0].lineno, fi.qualname, unparse(interps[0])[:120],
                  f"fill_value={fv!r}: target frequencies above the highest source frequency must get zero energy (not NaN / extrapolation)")
-    anchor = _if_with(fi, lambda n: any(isinstance(b, ast.Assign) and unparse(b.targets[0]) == "fzero" for b in n.body))
+    def _is_zero_copy(v):
+        fs = factors(v)
+        return len(fs) == 2 and any(repo.const(fi.module, f) == 0 for f in fs) and any(
+            isinstance(f, ast.Call) and isinstance(f.func, ast.Attribute) and f.func.attr == "isel" and unparse(f.func.value) == OUT for f in fs)
+    anchor = _if_with(fi, lambda n: any(isinstance(b, ast.Assign) and _is_zero_copy(b.value) for b in n.body))
     ok = False
     if anchor:
         a = anchor[0]
-        t = unparse(a.test).replace(" ", "")
-        body = unparse(a).replace(" ", "")
-        ok = t == f"{freq}.min()<dsout.{F}.min()" and f"fzero=0*dsout.isel({F}=0)" in body and f"fzero['{F}']=0" in body and \
-            f"xr.concat([fzero,dsout],dim='{F}')" in body
+        z = [b for b in a.body if isinstance(b, ast.Assign) and _is_zero_copy(b.value)][0].targets[0].id
+        t = a.test
+        guard_ok = isinstance(t, ast.Compare) and isinstance(t.ops[0], ast.Lt) and unparse(t.left).replace(" ", "") == f"{freq}.min()" and \
+            unparse(t.comparators[0]).replace(" ", "") in (f"{OUT}.{F}.min()", f"{OUT}['{F}'].min()")
+        relabel = any(isinstance(b, ast.Assign) and isinstance(b.targets[0], ast.Subscript) and unparse(b.targets[0].value) == z and
+                      repo.const(fi.module, b.targets[0].slice) == F and repo.const(fi.module, b.value) == 0 for b in a.body)
+        front = any(isinstance(b, ast.Assign) and isinstance(b.value, ast.Call) and call_name(b.value) in ("xr.concat", "xarray.concat") and b.value.args and
+                    isinstance(b.value.args[0], (ast.List, ast.Tuple)) and [unparse(e) for e in b.value.args[0].elts] == [z, OUT] and
+                    repo.const(fi.module, kwarg(b.value, "dim")) == F for b in a.body)
+        ok = guard_ok and relabel and front
     if ok:
         rep.ok("R-C08-2", f"{fi.file}:{anchor[0].lineno} regrid_spec", "f=0 zero-energy anchor prepended when the target reaches below the lowest frequency", "E(f=0)=0")
     else:
@@ -132,8 +152,8 @@ def run(repo, rep, tier):
     owners = sorted(unparse(c.func.value).split(".")[0] for c in hs_calls)
     args_ok = all(not c.args and not c.keywords for c in hs_calls)
     ratio = [n for n in ast.walk(sc) if isinstance(n, ast.BinOp) and isinstance(n.op, ast.Div)]
-    good = len(hs_calls) == 2 and owners == sorted([dset, "dsout"]) and ratio and \
-        unparse(ratio[0].left).startswith(dset) and unparse(ratio[0].right).startswith("dsout") and \
+    good = len(hs_calls) == 2 and owners == sorted([dset, OUT]) and ratio and \
+        unparse(ratio[0].left).startswith(dset) and unparse(ratio[0].right).startswith(OUT) and \
         "** 2" in unparse(ratio[0].left) and "** 2" in unparse(ratio[0].right)
     if good and args_ok:
         rep.ok("R-C08-3", f"{fi.file}:{sc.lineno} regrid_spec", unparse(ratio[0]), "factor = Hs(source)^2 / Hs(result)^2 with the accessor's default Hs")
@@ -143,14 +163,14 @@ def run(repo, rep, tier):
                  "another variant (e.g. tail=False) the regridded spectrum's reported Hs differs from the source's whenever the tail term applies")
     else:
         rep.fail("R-C08-3", fi.file, sc.lineno, fi.qualname, unparse(sc)[:140], "variance conservation must scale by hs(source)**2 / hs(result)**2")
-    mul = [n for n in ast.walk(sc) if isinstance(n, ast.Assign) and unparse(n.targets[0]) == "dsout" and isinstance(n.value, ast.BinOp) and isinstance(n.value.op, ast.Mult)]
+    mul = [n for n in ast.walk(sc) if isinstance(n, ast.Assign) and unparse(n.targets[0]) == OUT and isinstance(n.value, ast.BinOp) and isinstance(n.value.op, ast.Mult)]
     if not mul:
         rep.fail("R-C08-3", fi.file, sc.lineno, fi.qualname, unparse(sc)[:120], "the factor is not applied to the result")
     # nothing changes values afterwards
     after = fi.node.body[fi.node.body.index(sc) + 1:]
     for s in after:
         for n in ast.walk(s):
-            if isinstance(n, ast.Assign) and unparse(n.targets[0]) == "dsout" or isinstance(n, ast.AugAssign) and unparse(n.target) == "dsout":
+            if isinstance(n, ast.Assign) and unparse(n.targets[0]) == OUT or isinstance(n, ast.AugAssign) and unparse(n.target) == OUT:
                 rep.fail("R-C08-3", fi.file, n.lineno, fi.qualname, unparse(n)[:100], "the result's values are modified after the variance rescaling")
     guards = [unparse(x.test) for x in ast.walk(sc) if isinstance(x, ast.If) and x is not sc]
     if guards:
@@ -171,10 +191,25 @@ def run(repo, rep, tier):
             rep.fail("R-C08-3", f2.file, f2.node.lineno, f2.qualname, "forwarding of maintain_m0", "the accessor must pass maintain_m0 through")
     # ---- rotate ---------------------------------------------------------------------------------------
     rt = repo.func("wavespectra.specarray.SpecArray.rotate")
-    t = unparse(rt.node).replace(" ", "")
-    ok = "self.dir.values+angle" in t and "%360" in t and "assign_coords" in t and "regrid_spec(dsout,dir=self.dir)" in t
-    rets = [n for n in ast.walk(rt.node) if isinstance(n, ast.Return)]
-    if ok and len(rets) == 1:
+    from ..astutil import returns as _returns
+    rr = _returns(rt.node)
+    ok = False
+    if len(rr) == 1:
+        r0, v0 = rr[0]
+        if isinstance(v0, ast.Call) and call_name(v0) == "regrid_spec" and v0.args and kwarg(v0, "dir") is not None and unparse(kwarg(v0, "dir")) == "self.dir":
+            src = resolve(rt.node, v0.args[0], before=r0.lineno + 1)
+            if isinstance(src, ast.Call) and isinstance(src.func, ast.Attribute) and src.func.attr == "assign_coords" and unparse(src.func.value) == "self._obj":
+                lab = None
+                for a_ in src.args:
+                    if isinstance(a_, ast.Dict):
+                        for kk, vv in zip(a_.keys, a_.values):
+                            if repo.const(rt.module, kk) == D:
+                                lab = vv
+                if lab is not None and isinstance(lab, ast.BinOp) and isinstance(lab.op, ast.Mod) and repo.const(rt.module, lab.right) == 360:
+                    inner = resolve(rt.node, lab.left, before=r0.lineno + 1)
+                    it = unparse(inner).replace(" ", "")
+                    ok = it in ("self.dir.values+angle", "angle+self.dir.values", "self.dir+angle", "angle+self.dir")
+    if ok:
         rep.ok("R-C08-4", f"{rt.file}:{rt.node.lineno} rotate", "relabel (dir + angle) % 360, regrid onto self.dir", "single path for every angle")
     else:
         rep.fail("R-C08-4", rt.file, rt.node.lineno, rt.qualname, "rotate", "rotation must relabel directions by (dir + angle) % 360 and regrid onto the original directions on every path")
